@@ -4,6 +4,7 @@ Pure `ast`.  Nothing is imported from the analysed repository.
 """
 from __future__ import annotations
 import ast
+from .canon import canonicalise
 import hashlib
 import os
 from dataclasses import dataclass, field
@@ -244,6 +245,7 @@ class Program:
                 tree = ast.parse(src, filename=path)
             except SyntaxError as e:
                 raise AnalysisError(f"cannot parse {path}: {e}")
+            tree = canonicalise(tree)
             m = Module(name, path, os.path.relpath(path, self.repo), src, tree, is_pkg)
             self.modules[name] = m
         self.digest = h.hexdigest()
